@@ -354,16 +354,71 @@ class Path:
         return None
 
 
+_NORM = {}
+
+
+def norm_callee(c):
+    """def path with generic argument lists removed: `Mutex::<R, T>::lock` -> `Mutex::lock`,
+    `<Vec<T, A> as Index<I>>::index` -> `<Vec as Index>::index`, `<impl S<DB>>::f` -> `<impl S>::f`"""
+    r = _NORM.get(c)
+    if r is not None:
+        return r
+    out = []
+    i = 0
+    n = len(c)
+
+    def parse(i, top):
+        # returns (string, next index) for a sequence up to the matching '>' (or end when top)
+        buf = []
+        while i < n:
+            ch = c[i]
+            if ch == '<':
+                inner, j = parse(i + 1, False)
+                keep = (' as ' in inner) or inner.startswith('impl ') or (not buf or buf[-1] in ('', ' ') or ''.join(buf).endswith(('(', ',', ' ', '&')))
+                prev = ''.join(buf)
+                if (' as ' in inner or inner.startswith('impl ')) and (prev == '' or prev.endswith('::') or prev.endswith(' ') or prev.endswith('(')):
+                    buf.append('<' + inner + '>')
+                else:
+                    # generic argument list: drop it, and a preceding '::' turbofish
+                    if prev.endswith('::'):
+                        buf = [prev[:-2]]
+                i = j
+                continue
+            if ch == '>':
+                if top:
+                    buf.append(ch)
+                    i += 1
+                    continue
+                return ''.join(buf), i + 1
+            buf.append(ch)
+            i += 1
+        return ''.join(buf), i
+
+    r, _ = parse(0, True)
+    _NORM[c] = r
+    return r
+
+
 def callee_matches(callee, pat):
     if isinstance(pat, (list, tuple, set, frozenset)):
         return any(callee_matches(callee, p) for p in pat)
     if hasattr(pat, 'search'):
         return pat.search(callee) is not None
+    if _cm(callee, pat):
+        return True
+    nc = norm_callee(callee)
+    return nc != callee and _cm(nc, pat)
+
+
+def _cm(callee, pat):
     if pat.startswith('='):
         return callee == pat[1:]
     if pat.startswith('~'):
         return pat[1:] in callee
     return callee.endswith(pat) or (pat in callee and pat.endswith('::'))
+
+
+TRACK_DROP_TYPES = ('CancelOnPanic',)
 
 
 class PathBudget(Exception):
@@ -432,7 +487,7 @@ class Fn:
         return f"{self.b['file']}:{bb_or_line}"
 
     # -- symbolic walk -------------------------------------------------------------------------
-    def place_term(self, p, env):
+    def place_term(self, p, env, heap=None):
         loc = p['local']
         if loc in env:
             t = env[loc]
@@ -480,9 +535,11 @@ class Fn:
                         t = t[1][3][i]
                         continue
             t = ('field', t, pr)
+            if heap and t in heap:
+                t = heap[t]
         return t
 
-    def op_term(self, o, env):
+    def op_term(self, o, env, heap=None):
         if o['k'] == 'const':
             v = o['v']
             if v.startswith('const '):
@@ -494,7 +551,7 @@ class Fn:
                     return pv
             return ('const', v)
         if o['k'] in ('copy', 'move'):
-            return self.place_term(o['p'], env)
+            return self.place_term(o['p'], env, heap)
         return ('unk', 'other')
 
     def promoted_value(self, name):
@@ -510,28 +567,28 @@ class Fn:
                 return e.d['value']
         return None
 
-    def rv_term(self, rv, env):
+    def rv_term(self, rv, env, heap=None):
         k = rv['k']
         if k == 'use':
-            return self.op_term(rv['o'], env)
+            return self.op_term(rv['o'], env, heap)
         if k in ('ref', 'rawptr'):
-            return self.place_term(rv['p'], env)
+            return self.place_term(rv['p'], env, heap if k != 'ref' or not rv.get('mut') else heap)
         if k == 'bin':
-            return ('bin', rv['op'], self.op_term(rv['l'], env), self.op_term(rv['r'], env))
+            return ('bin', rv['op'], self.op_term(rv['l'], env, heap), self.op_term(rv['r'], env, heap))
         if k == 'un':
-            return ('un', rv['op'], self.op_term(rv['o'], env))
+            return ('un', rv['op'], self.op_term(rv['o'], env, heap))
         if k == 'cast':
-            return self.op_term(rv['o'], env)
+            return self.op_term(rv['o'], env, heap)
         if k == 'discr':
-            return ('discr', self.place_term(rv['p'], env), rv.get('adt', ''))
+            return ('discr', self.place_term(rv['p'], env, heap), rv.get('adt', ''))
         if k == 'agg':
             if rv['adt'].startswith('closure:'):
-                return ('closure', rv['adt'][8:], tuple(self.op_term(o, env) for o in rv['ops']))
-            return ('agg', rv['adt'], rv.get('variant', ''), tuple(self.op_term(o, env) for o in rv['ops']),
+                return ('closure', rv['adt'][8:], tuple(self.op_term(o, env, heap) for o in rv['ops']))
+            return ('agg', rv['adt'], rv.get('variant', ''), tuple(self.op_term(o, env, heap) for o in rv['ops']),
                     ','.join(rv.get('fields', [])))
         return ('unk', k + ':' + str(rv.get('v', ''))[:40])
 
-    def paths(self, start=0, stop=None, budget=200000, env0=None, keep_noise=False, stop_at_calls=None):
+    def paths(self, start=0, stop=None, budget=200000, env0=None, keep_noise=False, stop_at_calls=None, max_visits=2):
         """enumerate paths from block `start`; `stop(bb)` ends a path (before executing bb) with
         end='stop'."""
         out = []
@@ -542,10 +599,10 @@ class Fn:
         def held_of(guards):
             return tuple(sorted(set(guards.values())))
 
-        def walk(bb, env, memo, used, events, guards, trail):
+        def walk(bb, env, memo, used, events, guards, trail, heap):
             # iterative on straight-line code, recursive on branches
             while True:
-                if trail.count(bb) >= 2:
+                if trail.count(bb) >= max_visits:
                     out.append(Path(events, 'cut', trail))
                     return
                 if bb not in blocks:
@@ -564,14 +621,14 @@ class Fn:
                         events = events + [Ev('assign', bb, st['line'], held_of(guards), st.get('mac'),
                                               place=pt, value=('agg', rv['ty'], rv['variant'], (), ''))]
                         continue
-                    val = self.rv_term(rv, env)
+                    val = self.rv_term(rv, env, heap)
                     if not lhs['proj']:
                         loc = lhs['local']
                         env = dict(env)
                         env[loc] = val
                         # guard moves
-                        if rv['k'] == 'use' and rv['o']['k'] == 'move' and not rv['o']['p']['proj'] \
-                                and rv['o']['p']['local'] in guards:
+                        if rv['k'] == 'use' and rv['o']['k'] == 'move' and rv['o']['p']['local'] in guards \
+                                and (not rv['o']['p']['proj'] or guard_kind(self.lty.get(loc, ''))):
                             guards = dict(guards)
                             guards[loc] = guards.pop(rv['o']['p']['local'])
                         elif rv['k'] == 'agg':
@@ -585,9 +642,11 @@ class Fn:
                             # a write to a user variable invalidates memoised decisions on it: handled
                             # by env replacement (terms are values, not names)
                     else:
-                        pt = self.place_term(lhs, env)
+                        pt = self.place_term(lhs, env, None)
                         events = events + [Ev('assign', bb, st['line'], held_of(guards), st.get('mac'),
                                               place=pt, value=val)]
+                        heap = dict(heap)
+                        heap[pt] = val
                         # invalidate memo entries that read this place
                         if memo:
                             memo = {k: v for k, v in memo.items() if not mentions(k, pt)}
@@ -618,6 +677,9 @@ class Fn:
                     continue
                 if k == 'drop':
                     p = t['p']
+                    if not p['proj'] and any(x in self.lty.get(p['local'], '') for x in TRACK_DROP_TYPES):
+                        events = events + [Ev('drop', bb, t['line'], held_of(guards), ty=self.lty[p['local']],
+                                              name=self.lname.get(p['local'], ''))]
                     if not p['proj'] and p['local'] in guards:
                         g = guards[p['local']]
                         guards = dict(guards)
@@ -627,7 +689,7 @@ class Fn:
                     continue
                 if k == 'call':
                     callee = t['callee']
-                    args = tuple(self.op_term(a, env) for a in t['args'])
+                    args = tuple(self.op_term(a, env, heap) for a in t['args'])
                     dest = t['dest']
                     # guard ownership transfer into the callee
                     moved = [a['p']['local'] for a in t['args']
@@ -646,8 +708,12 @@ class Fn:
                                     guards[dest['local']] = g
                                 else:
                                     rel_events.append(Ev('release', bb, t['line'], held_of(guards), guard=g, cls=g[0], on=g[1], moved=callee))
+                    folded = fold_call(callee, args)
                     if is_transparent(callee) and args:
                         val = args[0]
+                        ev = None
+                    elif folded is not None:
+                        val = folded
                         ev = None
                     else:
                         n = sum(1 for e in events if e.kind == 'call' and e.bb == bb)
@@ -682,7 +748,7 @@ class Fn:
                     bb = t['t']
                     continue
                 if k == 'switch':
-                    dterm = self.op_term(t['d'], env)
+                    dterm = self.op_term(t['d'], env, heap)
                     targets = t['targets']
                     otherwise = t['otherwise']
                     # constant?
@@ -717,7 +783,7 @@ class Fn:
                         if tt not in blocks:
                             continue
                         e = (bb, tt, lab)
-                        if e in used:
+                        if used.get(e, 0) >= max_visits - 1:
                             continue
                         branches.append((lab, tt, e))
                     if not branches:
@@ -727,7 +793,9 @@ class Fn:
                         m2 = dict(memo)
                         m2[key] = lab
                         ev = Ev('atom', bb, t['line'], held_of(guards), t.get('mac'), term=dterm, outcome=lab)
-                        walk(tt, env, m2, used | {e}, events + [ev], guards, trail)
+                        u2 = dict(used)
+                        u2[e] = u2.get(e, 0) + 1
+                        walk(tt, env, m2, u2, events + [ev], guards, trail, heap)
                         if count[0] > budget:
                             raise PathBudget(self.name)
                     return
@@ -735,7 +803,7 @@ class Fn:
                 return
 
         sys.setrecursionlimit(20000)
-        walk(start, dict(env0 or {}), {}, frozenset(), [], {}, [])
+        walk(start, dict(env0 or {}), {}, {}, [], {}, [], {})
         return out
 
     def switch_labels(self, t, dterm):
@@ -757,6 +825,32 @@ class Fn:
         return labs + ['!' + '|'.join(labs)]
 
 
+def fold_call(callee, args):
+    """evaluate a few pure std calls on values built on this path"""
+    if not args:
+        return None
+    a = args[0]
+    if a[0] == 'agg' and a[1].endswith('option::Option'):
+        if callee.endswith('::is_none'):
+            return ('const', 'true' if a[2] == 'None' else 'false')
+        if callee.endswith('::is_some'):
+            return ('const', 'true' if a[2] == 'Some' else 'false')
+    if len(args) == 2 and (callee.endswith('PartialEq>::eq') or callee.endswith('PartialEq::eq')
+                           or callee.endswith('PartialEq>::ne') or callee.endswith('PartialEq::ne')):
+        b = args[1]
+        if a[0] == 'agg' and b[0] == 'agg' and a[1] == b[1] and a[2] and b[2]:
+            if a[2] != b[2]:
+                eq = False
+            elif not a[3] and not b[3]:
+                eq = True
+            else:
+                return None
+            if callee.endswith('ne'):
+                eq = not eq
+            return ('const', 'true' if eq else 'false')
+    return None
+
+
 def same_value_read(term):
     return False
 
@@ -772,7 +866,39 @@ def is_pure_callee(callee):
     return any(p in callee for p in PURE_CALLEE_PATTERNS)
 
 
+def lin(t):
+    """t as (base term or None, integer offset) through +/- constants"""
+    if t[0] == 'const':
+        m = re.match(r'^(-?\d+)_?[iu]?(8|16|32|64|128|size)?$', t[1])
+        if m:
+            return (None, int(m.group(1)))
+        return (t, 0)
+    if t[0] == 'field' and t[2].startswith('tuple.0') and t[1][0] == 'bin' and t[1][1] in ('AddWithOverflow', 'SubWithOverflow'):
+        t = ('bin', 'Add' if t[1][1].startswith('Add') else 'Sub', t[1][2], t[1][3])
+    if t[0] == 'bin' and t[1] in ('Add', 'Sub', 'AddUnchecked', 'SubUnchecked'):
+        lb, lk = lin(t[2])
+        rb, rk = lin(t[3])
+        if t[1].startswith('Add'):
+            if rb is None:
+                return (lb, lk + rk)
+            if lb is None:
+                return (rb, lk + rk)
+        else:
+            if rb is None:
+                return (lb, lk - rk)
+            if lb is not None and strip_uids(lb) == strip_uids(rb):
+                return (None, lk - rk)
+    return (t, 0)
+
+
 def const_value(t):
+    if t[0] == 'bin' and t[1] in ('Eq', 'Ne', 'Lt', 'Le', 'Gt', 'Ge'):
+        lb, lk = lin(t[2])
+        rb, rk = lin(t[3])
+        same = (lb is None and rb is None) or (lb is not None and rb is not None and strip_uids(lb) == strip_uids(rb))
+        if same:
+            r = {'Eq': lk == rk, 'Ne': lk != rk, 'Lt': lk < rk, 'Le': lk <= rk, 'Gt': lk > rk, 'Ge': lk >= rk}[t[1]]
+            return 1 if r else 0
     if t[0] == 'const':
         v = t[1]
         if v == 'true':
